@@ -3,7 +3,7 @@
    dicts must normalise as the model does; missing variables / bad cases are rejected. *)
 From Coq Require Import List ZArith QArith Qcanon Bool Arith.
 From Dimod Require Import Base.Util Model.Poly Model.HPoly Model.Samples Model.EnergyCy Model.HPolyLoop.
-From Dimod Require Model.Adj Model.DqmLoop Model.PyBqm.
+From Dimod Require Model.Adj Model.DqmLoop Model.PyBqm Model.ViewOps Gen.Gen_View.
 Import ListNotations.
 
 Inductive case :=
@@ -24,7 +24,10 @@ Inductive case :=
 | DLoop (starts : list nat) (lin : list Qc) (quad : list (nat * nat * Qc)) (off : Qc) (adjv : list (list nat))
         (vars ls : list label) (rows : list (list Z)) (seen : option (list Qc))
 (* pybqm.py pyBQM.energies (dict back-end) run on the observed _adj dicts *)
-| PyCase (n : nat) (o : obs) (m : PyBqm.pybqm) (ls : list label) (rows : list (list Qc)) (seen : option (list Qc)).
+| PyCase (n : nat) (o : obs) (m : PyBqm.pybqm) (ls : list label) (rows : list (list Qc)) (seen : option (list Qc))
+(* vartypeview.py VartypeView.energies: the samples (in the VIEW's domain) are converted with the generated
+   sample steps and the BASE model is evaluated; base = coefficients reported by the base *)
+| ViewE (d : Gen_View.vdir) (base : obs) (ls : list label) (rows : list (list Qc)) (seen : list Qc).
 
 Definition qlist_eqb := list_eqb Qc_eqb.
 
@@ -58,4 +61,8 @@ Definition check (c : case) : bool :=
       PyBqm.pb_wfb m
       && poly_coeff_eqb n (PyBqm.pb_abs m) (obs_poly o)
       && option_eqb qlist_eqb (PyBqm.pb_energies m ls rows) seen
+  | ViewE d base ls rows seen =>
+      qlist_eqb (map (fun row => ViewOps.view_energy d (obs_poly base) (row_sample ls row)) rows) seen
+      (* and that is the energy of the polynomial the view reports *)
+      && qlist_eqb (map (fun row => energy (ViewOps.view_poly d (obs_poly base)) (row_sample ls row)) rows) seen
   end.
